@@ -29,6 +29,9 @@ pub enum Backoff {
     ExpRandom { init: u64, factor10: u8, cap: Option<u64> },
     /// custom, non-monotone function of the attempt
     Custom,
+    /// the same function shifted by this many places (3: the first retry is free, 0 ms, the
+    /// later ones are not)
+    CustomFrom(u8),
     /// builder.fixed_backoff(Duration::from_micros(us)), 0 < us < 1000: not "no back-off"
     FixedMicros(u32),
 }
@@ -91,6 +94,7 @@ fn case_strategy(_tier: Tier) -> BoxedStrategy<RetryCase> {
         2 => (1u64..=8, 0u8..=10, prop_oneof![Just(None), (1u64..=40).prop_map(Some)])
             .prop_map(|(init, factor10, cap)| Backoff::ExpRandom { init, factor10, cap }),
         2 => Just(Backoff::Custom),
+        2 => prop_oneof![2 => Just(3u8), 1 => 0u8..8].prop_map(Backoff::CustomFrom),
         1 => prop_oneof![Just(1u32), Just(900u32), 1u32..=999].prop_map(Backoff::FixedMicros),
     ];
     let budget = prop_oneof![
@@ -385,6 +389,15 @@ async fn interp(case: &RetryCase) -> Verdict {
             }
             b.backoff(LogInterval {
                 inner: Arc::new(e),
+                log: log.clone(),
+            })
+        }
+        Backoff::CustomFrom(rot) => {
+            let rot = *rot as usize;
+            b.backoff(LogInterval {
+                inner: Arc::new(FnInterval::new(move |k: usize| {
+                    Duration::from_millis(CUSTOM_MS[(k + rot) % CUSTOM_MS.len()])
+                })),
                 log: log.clone(),
             })
         }
